@@ -37,7 +37,7 @@ def labelled_sites(run, fi, F=None):
         if 'Interpreter._raise_event' in shorts and c.args:
             a = strip_cast(c.args[0])
             if isinstance(a, ast.Call) and isinstance(a.func, ast.Name) and a.func.id == 'MetaEvent' and a.args:
-                out.append(Site('emit:%s' % q.const_str(a.args[0]), c, {'kwargs': q.kwargs_of(a)}))
+                out.append(Site('emit:%s' % (q.const_str(a.args[0]) or '?' + q.unparse(a.args[0])[:60]), c, {'kwargs': q.kwargs_of(a)}))
             else:
                 out.append(Site('raise_event', c, {'arg': a}))
         if 'Interpreter._apply_step' in shorts:
